@@ -174,7 +174,7 @@ def check(run) -> None:
     q = run.quick
     run.rule = ("every 2-turn history of Turn.tla over the reflection dimensions replayed on run_turn (x token limits x exception types x "
                 "input texts, sampled in quick); LLM-fixture modes; distinct = (history, tokens, exception, text)")
-    consts = {"MaxTurns": 2, "Vary": ["allow_refl", "plan_refl", "dry", "reuse", "ops_cap", "refl_out"],
+    consts = {"MaxTurns": 2, "Vary": ["allow_refl", "plan_refl", "dry", "reuse", "ops_cap", "refl_out"], "ForceOn": [],
               "FaultSites": ["refl_compute", "refl_write", "refl_log"], "MaxFaults": 1, "StashCleared": True}
     invs = ["YieldOnlyAtBoundary", "TurnCompletes", "NoArtefact", "NothingWhenClosed", "EntriesWithinOps", "NoWriteOnError", "VersionDiscipline"]
     cfg = make_cfg(consts, invs, [], emit=False, view=None, constraint="EmitDone")
